@@ -182,7 +182,16 @@ func ruleR9(c *Ctx, prop string) {
 					for _, g := range guardsOf(b) {
 						for _, a := range atomsOf(g) {
 							if z, ok := constInt(a.y); ok && z == 0 && a.op == token.LSS && D.has(a.x) {
-								normSeeds = append(normSeeds, bo)
+								// the value added must be the rank (or, for index data, the extent) of a tensor
+								off := bo.Y
+								if D.has(bo.Y) && !D.has(bo.X) {
+									off = bo.X
+								}
+								if c.derivesFromShape(off, reach, 0, map[ssa.Value]bool{}) {
+									normSeeds = append(normSeeds, bo)
+								} else {
+									c.counts["R9.normalisers_with_non_rank_offset"]++
+								}
 							}
 						}
 					}
@@ -245,7 +254,7 @@ func ruleR9(c *Ctx, prop string) {
 				}
 				if sk.kind == "selection" || sk.kind == "index" || sk.kind == "slice-bound" || sk.ext != nil {
 					c.decide(N.has(sk.val), "R9", key, c.pos(sk.instr.Pos()), "the value used was produced by `x + rank` under `x < 0` (negative axes normalised)",
-						"a possibly negative "+src.kind+" is used without the `+ rank` normalisation: negative spellings select the wrong axis (gorgonia treats -1 as 'all axes') or panic")
+						"a possibly negative "+src.kind+" is used without the `+ rank` normalisation (or what is added to it is not the rank / extent of the operand): negative spellings select the wrong axis (gorgonia treats -1 as 'all axes') or panic")
 				}
 			}
 		}
@@ -783,4 +792,124 @@ func extremeConst(v ssa.Value) bool {
 		return false
 	}
 	return k > 1<<31 || k < -(1<<31)
+}
+
+// derivesFromShape: does the integer value come from len(t.Shape()) (a rank) or t.Shape()[k] (an extent)?
+// cellDerivesFromShape: every value stored into the variable cell is shape-derived (and there is one).
+func (c *Ctx) cellDerivesFromShape(al *ssa.Alloc, reach map[*ssa.Function]bool, depth int, seen map[ssa.Value]bool) bool {
+	n := 0
+	for _, r := range *al.Referrers() {
+		if st, ok := r.(*ssa.Store); ok && st.Addr == al {
+			n++
+			if !c.derivesFromShape(st.Val, reach, depth+1, seen) {
+				return false
+			}
+		}
+	}
+	return n > 0
+}
+
+func (c *Ctx) derivesFromShape(v ssa.Value, reach map[*ssa.Function]bool, depth int, seen map[ssa.Value]bool) bool {
+	if v == nil || depth > 10 || seen[v] {
+		return false
+	}
+	seen[v] = true
+	isShape := func(x ssa.Value) bool {
+		for i := 0; i < 4; i++ {
+			switch y := x.(type) {
+			case *ssa.ChangeType:
+				x = y.X
+			case *ssa.Slice:
+				x = y.X
+			case *ssa.Call:
+				name, _ := tensorMethod(y)
+				return name == "Shape"
+			default:
+				return false
+			}
+		}
+		return false
+	}
+	switch x := v.(type) {
+	case *ssa.Call:
+		if b, ok := x.Common().Value.(*ssa.Builtin); ok && b.Name() == "len" {
+			return isShape(x.Common().Args[0])
+		}
+		if name, _ := tensorMethod(x); name == "Dims" {
+			return true
+		}
+	case *ssa.UnOp:
+		if ia, ok := x.X.(*ssa.IndexAddr); ok && isShape(ia.X) {
+			return true
+		}
+		if x.Op == token.MUL {
+			switch cell := x.X.(type) {
+			case *ssa.FreeVar:
+				// load of a captured variable (closures capture cells)
+				return c.derivesFromShape(cell, reach, depth+1, seen)
+			case *ssa.Alloc:
+				return c.cellDerivesFromShape(cell, reach, depth, seen)
+			}
+		}
+	case *ssa.BinOp:
+		return c.derivesFromShape(x.X, reach, depth+1, seen) || c.derivesFromShape(x.Y, reach, depth+1, seen)
+	case *ssa.Convert:
+		return c.derivesFromShape(x.X, reach, depth+1, seen)
+	case *ssa.Phi:
+		for _, e := range x.Edges {
+			if c.derivesFromShape(e, reach, depth+1, seen) {
+				return true
+			}
+		}
+	case *ssa.Parameter:
+		fn := x.Parent()
+		idx := -1
+		for i, p := range fn.Params {
+			if p == x {
+				idx = i
+			}
+		}
+		// every call site inside this operator's code must pass a shape-derived value
+		n, ok := 0, true
+		if node := c.cg.Nodes[fn]; node != nil {
+			for _, e := range node.In {
+				if e.Site == nil || !reach[e.Caller.Func] {
+					continue
+				}
+				args := e.Site.Common().Args
+				if idx < len(args) {
+					n++
+					if !c.derivesFromShape(args[idx], reach, depth+1, seen) {
+						ok = false
+					}
+				}
+			}
+		}
+		return n > 0 && ok
+	case *ssa.FreeVar:
+		fn := x.Parent()
+		idx := -1
+		for i, p := range fn.FreeVars {
+			if p == x {
+				idx = i
+			}
+		}
+		if par := fn.Parent(); par != nil {
+			for _, b := range par.Blocks {
+				for _, in := range b.Instrs {
+					if mc, ok := in.(*ssa.MakeClosure); ok && mc.Fn == fn && idx < len(mc.Bindings) {
+						bv := mc.Bindings[idx]
+						// captured variables are cells: look at what is stored into them / the param
+						if al, ok := bv.(*ssa.Alloc); ok {
+							return c.cellDerivesFromShape(al, reach, depth, seen)
+						}
+						if c.derivesFromShape(bv, reach, depth+1, seen) {
+							return true
+						}
+					}
+				}
+			}
+		}
+	}
+	return false
 }
